@@ -19,6 +19,66 @@ from vf.tlc import Raw, tla_value
 INVS = ['EqualsDefinition', 'OneDiagPerClient', 'EmptyRoundFixpoint', 'NoNaN']
 
 
+def keyed_leg(ctx, fedjax, cases):
+  """The reductions with a loss that USES its random key (integer noise, exact island): the keys FedAvg draws with at every
+  local step are recorded (debug backend), TLC computes the exact FedAvg / FedProx(mu) parameters for those draws, and
+  FedProx(0) and FedProx(mu) must reach them - i.e. follow FedAvg's key schedule ("0 weight is FedAvg")."""
+  import jax  # pylint: disable=g-import-not-at-top
+  rng = ctx.rng
+  R = island.R
+  picked = [c for c in cases if max(len(s) for s in c['inst']['stream']) >= 2][: (16 if ctx.thorough else 6)]
+  variants = []
+  for ci, c in enumerate(picked):
+    inst = c['inst']
+    seed = 500 + ci
+    log = []
+    rec = c01.run_real(fedjax, c, 'listed', 'debug', loss='int_noise', keys_seed=seed, key_log=log)
+    if rec['error']:
+      ctx.violation('keys:fed_avg:exception', f'{rec["error"]} with the key-dependent loss on {inst}', replay={'instance': inst})
+      continue
+    noise = [[[0] * max(1, len(s)) for s in inst['stream']] for _ in range(inst['rounds'])]
+    pos = 0
+    for r, cohort in enumerate(inst['cohorts']):
+      for cl in cohort:
+        for i in range(len(inst['stream'][cl - 1])):
+          if pos < len(log):
+            noise[r][cl - 1][i] = int(island.int_noise_of(np.array(log[pos], np.uint32)))
+          pos += 1
+    if pos != len(log):
+      continue    # (C01 reports a wrong number of gradient calls)
+    kinst = dict(inst, noise=noise, mime_slr=R(1))
+    mu = rng.choice([0.25, 0.5])
+    # (HypCluster derives separate selection and training keys from the client's key by design, MimeLite and APFL have
+    # their own client loops: with a key-using loss they equal FedAvg in distribution only, which is not demanded here)
+    for name, oinst, kw in (('fed_prox', kinst, {'mu': 0.0}), ('fed_prox', dict(kinst, mu=R(mu)), {'mu': mu})):
+      if island.within_island(oinst):
+        variants.append((c, seed, name, oinst, kw))
+  if not variants:
+    return
+  expected = island.oracle(ctx, [v[3] for v in variants], 'K')
+  n_ok = 0
+  for (c, seed, name, oinst, kw), exp in zip(variants, expected):
+    label = f'{name}({", ".join(f"{k}={v}" for k, v in kw.items())}) with a key-dependent loss'
+    rec = algs.run_rounds(fedjax, name, c, order='listed', keys_seed=seed, loss=island.int_noise_loss, **kw)
+    ctx.case(key=('K', label, repr(oinst)), nontrivial=True)
+    if rec['error']:
+      ctx.violation(f'keys:{name}:exception', f'{label}: {rec["error"]} on {oinst}', replay={'instance': oinst, 'hparams': c['h'], 'tb': rec.get('tb')})
+      continue
+    bad = None
+    for r in range(oinst['rounds']):
+      want_p = [float(island.frac(x)) for x in exp['rounds'][r]]
+      if not np.allclose(rec['rounds'][r], want_p, rtol=1e-5, atol=1e-5):
+        bad = f'round {r + 1}: {label} gives {rec["rounds"][r]}; FedAvg{" on the proximal loss" if kw.get("mu") else ""} with the keys it draws gives {want_p}'
+        break
+    if bad:
+      ctx.violation(f'keys:{name}{"(mu>0)" if kw.get("mu") else ""}:params', f'{bad} (eta per step={oinst["noise"]}, hparams={c["h"]}, instance={c["inst"]})',
+                    replay={'instance': oinst, 'hparams': c['h'], 'algorithm': label})
+    else:
+      n_ok += 1
+  ctx.trace_ok(n_ok)
+  ctx.leg('K', keyed_runs=len(variants))
+
+
 def run(ctx):
   import fedjax  # pylint: disable=g-import-not-at-top
   big = ctx.thorough
@@ -30,7 +90,7 @@ def run(ctx):
   # ---- leg M
   insts = c01.fixed_instances()
   prox = [dict(i, mu=R(0.5), copt=island.opt_spec('sgd', 0.5)) for i in insts[:2]]
-  mc = '---- MODULE MC_FedRound ----\nEXTENDS FedRound\nInstDef == {%s}\n====\n' % ', '.join(tla_value(i) for i in prox)
+  mc = '---- MODULE MC_FedRound ----\nEXTENDS FedRound\nInstDef == {%s}\n====\n' % ', '.join(tla_value(island.complete(i)) for i in prox)
   consts = dict(Instances=Raw('<- InstDef'), **island.TOG)
   ctx.model_check('MC_FedRound', name='FedRound_prox_M', constants=consts, invariants=INVS, extra_modules={'MC_FedRound': mc})
   ctx.model_check('MC_FedRound', expect='EqualsDefinition', name='FedRound_ctl_ProxOnRound', constants=dict(consts, ProxOnRound=False), invariants=INVS,
@@ -44,7 +104,7 @@ def run(ctx):
     # pool A (every second instance): any client / server optimizer (SGD or momentum); pool B: plain SGD clients (MimeLite)
     pool_a = len(cases) % 2 == 0
     c = island.random_instance(rng, fedjax, leaves=rng.choice([1, 2]), dyadic=rng.random() < .7, allow_momentum=pool_a, max_clients=4,
-                               rounds=rng.choice([2, 3]) if pool_a else None)
+                               rounds=rng.choice([2, 3]) if pool_a else None, dups=len(cases) % 3 == 0)
     if c is None:
       continue
     if not pool_a:
@@ -54,7 +114,8 @@ def run(ctx):
   # single-local-step instances for Mime
   mime_cases = []
   while len(mime_cases) < (30 if big else 8):
-    c = island.random_instance(rng, fedjax, leaves=rng.choice([1, 2]), dyadic=True, allow_momentum=False, max_clients=4)
+    c = island.random_instance(rng, fedjax, leaves=rng.choice([1, 2]), dyadic=True, allow_momentum=False, max_clients=4,
+                               dups=len(mime_cases) % 2 == 0, rounds=rng.choice([2, 3]))
     if c is None:
       continue
     h = dict(c['h'], steps=1, epochs=1, drop=False)   # every client with examples takes exactly one local step
@@ -106,4 +167,5 @@ def run(ctx):
       n_ok += 1
   ctx.trace_ok(n_ok)
   ctx.leg('R', instances=len(cases) + len(mime_cases), algorithm_runs=len(variants))
+  keyed_leg(ctx, fedjax, cases)
   ctx.sample({'algorithm': 'mime', 'instance': variants[-1][2], 'expected': [[str(island.frac(x)) for x in rr] for rr in expected[-1]['mime']]})
